@@ -404,6 +404,12 @@ func main() {
 		if spendReq {
 			method, uri = "POST", "/api/v1/wallet/transaction"
 		}
+		// well-formed verify / inject requests for every encoded transaction the node's state offers (pending, a second spend of
+		// its input, a spend of a spent output, an unknown input, unsigned) - most random requests to these stop at validation
+		verifyReq := !scenario && !spendReq && rng.Intn(25) == 0
+		if verifyReq {
+			method, uri = "POST", pick([]string{"/api/v2/transaction/verify", "/api/v2/transaction/verify", "/api/v1/injectTransaction"})
+		}
 		names := append([]string{}, likely[uri]...)
 		for k := 0; k < rng.Intn(3); k++ {
 			names = append(names, paramNames[rng.Intn(len(paramNames))])
@@ -423,7 +429,7 @@ func main() {
 		ctype := ""
 		target := "http://" + wd.base + uri
 		form := "query"
-		if method == "GET" || method == "DELETE" || (!scenario && !spendReq && rng.Intn(4) == 0) {
+		if method == "GET" || method == "DELETE" || (!scenario && !spendReq && !verifyReq && rng.Intn(4) == 0) {
 			target += "?" + vals.Encode()
 		} else if strings.HasPrefix(uri, "/api/v2") || uri == "/api/v1/wallet/transaction" || uri == "/api/v1/injectTransaction" {
 			form = "json"
@@ -439,7 +445,14 @@ func main() {
 					m[k] = v[0]
 				}
 			}
-			if spendReq {
+			if verifyReq && uri == "/api/v1/injectTransaction" {
+				m = map[string]interface{}{"rawtx": pick(wd.encTxns)}
+			} else if verifyReq {
+				m = map[string]interface{}{"encoded_transaction": pick(wd.encTxns)}
+				if rng.Intn(2) == 0 {
+					m["unsigned"] = rng.Intn(2) == 0
+				}
+			} else if spendReq {
 				m = map[string]interface{}{"hours_selection": map[string]interface{}{"type": "auto", "mode": "share", "share_factor": "0.5"},
 					"wallet_id": pick(wd.wallets), "to": []map[string]string{{"address": pick(wd.addrs), "coins": pick([]string{"0.001", "0.5", "1"})}}}
 				if rng.Intn(2) == 0 {
@@ -462,7 +475,7 @@ func main() {
 				}
 			}
 			body, _ = json.Marshal(m)
-			if rng.Intn(10) == 0 {
+			if !verifyReq && !spendReq && rng.Intn(10) == 0 {
 				body = body[:len(body)/2] // cut JSON
 			}
 			ctype = "application/json"
